@@ -48,6 +48,15 @@ func main() {
 			os.Exit(2)
 		}
 		c.Tier = *tier
+		if *dump == "funcs" {
+			for _, f := range c.AllFuncs() {
+				fmt.Println(f.Name)
+			}
+			if c.norm != nil {
+				fmt.Println("#", c.norm.summary())
+			}
+			return
+		}
 		if strings.HasPrefix(*dump, "writes:") {
 			dumpWrites(c, strings.TrimPrefix(*dump, "writes:"))
 			return
